@@ -524,3 +524,65 @@ Definition owner_or_clone_seq (setup : list stmt) (bodies : list (list stmt)) : 
   | Some decl => forallb (forallb (use_ok2 decl)) bodies
   | None => false
   end.
+
+(* ------------------------------------------------------------------ read-only sharing *)
+(* A function that returns one of its list parameters (`def ident(xs): return xs`, `def sel(a, b, k): if k > t:
+   return a / return b`) returns a by-value struct: a SHALLOW copy of an existing list.  Assigned to an already
+   declared list, `x = sel(y, z, c)` is emitted as __redu_list_assign(x, sel(y, z, c)): the (only) overload takes
+   `const __redu_list<T> &`, so the temporary is CLONED and every name keeps its own buffer, while CPython binds x to
+   the very object of y.  Pass k of a history executes [LAssignRet x y_k] with the list y_k the call selected in that
+   pass; `x = y if c > t else z` (an lvalue conditional) is [LAssignVar x y_k].
+
+   [frozen_ok]: the names that take part in such an assignment (target or source) form the set [fz]; they are
+   declared before the loop like every list and afterwards only READ (indexing, by-value read-only call, element
+   argument `w.append(y[i])` of another list) or re-assigned among each other (never to themselves through a call:
+   `a = ident(a)` frees the buffer it then reads).  All other names follow the single-owner rules (tuple
+   assignments excepted).  Python's aliases are then indistinguishable from the firmware's copies. *)
+Definition share_names (s : stmt) : list name :=
+  match s with
+  | LAssignRet x y => [x; y]
+  | LAssignVar x y => if Z.eqb x y then [] else [x; y]
+  | _ => []
+  end.
+
+Definition frozen_set (setup : list stmt) (bodies : list (list stmt)) : list name :=
+  flat_map share_names (setup ++ concat bodies).
+
+Definition use_ok3 (decl fz : list name) (s : stmt) : bool :=
+  match s with
+  | LAppend x _ | LRemove x _ | LSet x _ _ => existsb (Z.eqb x) decl && negb (existsb (Z.eqb x) fz)
+  | LGet x _ | LCallGet x _ => existsb (Z.eqb x) decl
+  | LAppendRef x y _ | LRemoveRef x y _ =>
+      existsb (Z.eqb x) decl && negb (existsb (Z.eqb x) fz) && existsb (Z.eqb y) decl
+  | LAssignVar x y =>
+      if Z.eqb x y then existsb (Z.eqb x) decl
+      else existsb (Z.eqb x) decl && existsb (Z.eqb y) decl && existsb (Z.eqb x) fz && existsb (Z.eqb y) fz
+  | LAssignRet x y =>
+      negb (Z.eqb x y) && existsb (Z.eqb x) decl && existsb (Z.eqb y) decl &&
+      existsb (Z.eqb x) fz && existsb (Z.eqb y) fz
+  | _ => false
+  end.
+
+Fixpoint setup_ok3 (fz decl : list name) (ss : list stmt) : option (list name) :=
+  match ss with
+  | [] => Some decl
+  | s :: r =>
+      match s with
+      | LDeclLit x _ | LDeclComp x _ =>
+          if existsb (Z.eqb x) decl then None else setup_ok3 fz (decl ++ [x]) r
+      | _ => if use_ok3 decl fz s then setup_ok3 fz decl r else None
+      end
+  end.
+
+Definition frozen_ok_with (fz : list name) (setup : list stmt) (bodies : list (list stmt)) : bool :=
+  match setup_ok3 fz [] setup with
+  | Some decl => forallb (forallb (use_ok3 decl fz)) bodies
+  | None => false
+  end.
+
+Definition frozen_ok (setup : list stmt) (bodies : list (list stmt)) : bool :=
+  frozen_ok_with (frozen_set setup bodies) setup bodies.
+
+(* live data counted per NAME: a list object bound to two names counts twice (the firmware holds one copy per name) *)
+Definition p_named (st : pstate) : nat :=
+  fold_right (fun o acc => length (p_obj st o) + acc) 0 (map snd (p_glob st ++ p_loc st)).
